@@ -34,7 +34,12 @@ func init() {
 			}},
 			{ID: "C13-R3", Title: "no single-value type assertion on decoded request values", Decides: "arbitrary JSON (wrong types) does not panic", Floor: 2, Run: c13r3},
 			{ID: "C13-R4", Title: "no lock leaked on a handler path", Decides: "the accessory is not wedged", Floor: 2, Run: func(c *core.Ctx) { c13r4(c); noResponseWriteUnderServerMutex(c) }},
-			{ID: "C13-R5", Title: "a wrong-state start request resets the controller", Decides: "after at most one rejected start request a correct handshake succeeds on the same connection", Floor: 2, Run: func(c *core.Ctx) { c13r5(c); endpointPlumbingPolarity(c); polarityEverywhere(c, "C13") }},
+			{ID: "C13-R5", Title: "a wrong-state start request resets the controller", Decides: "after at most one rejected start request a correct handshake succeeds on the same connection", Floor: 2, Run: func(c *core.Ctx) {
+				c13r5(c)
+				endpointPlumbingPolarity(c)
+				polarityEverywhere(c, "C13")
+				handlerErrorStatusPolarity(c, "C13")
+			}},
 			{ID: "C13-R6", Title: "handlers keep no state that outlives the connection", Decides: "an abandoned exchange does not wedge later connections", Floor: 1, Run: c13r6},
 		},
 	})
